@@ -156,7 +156,7 @@ def run_chunk(job):
                samples=[], failures=[], skipped=0)
     import signal
 
-    class CaseTimeout(Exception):
+    class CaseTimeout(BaseException):      # not an Exception: a broad `except Exception` in the code under test must not swallow it
         pass
 
     def on_alarm(signum, frame):
@@ -230,8 +230,21 @@ def run_streams(modname, plan, seed, workers=None):
     if not jobs:
         return []
     ctxm = mp.get_context('fork')
+    # the per-case alarm cannot interrupt a call that never returns to the interpreter (a regular expression that
+    # backtracks for ever, say): the whole run is bounded as well, and ends as "could not decide" (exit 2)
+    ncases = sum(n for _, n, _ in plan)
+    hard = int(os.environ.get('VERIF_HARD_TIMEOUT', 0) or 0) or (1500 if ncases <= 30000 else 5 * 3600)
     with ctxm.Pool(workers, initializer=worker_init) as pool:
-        return pool.map(run_chunk, jobs, chunksize=1)
+        res = pool.map_async(run_chunk, jobs, chunksize=1)
+        try:
+            return res.get(timeout=hard)
+        except mp.TimeoutError:
+            pool.terminate()
+            return [dict(stream='*', evaluations=0, hashes=[], nontrivial_hashes=[], dist={}, samples=[], skipped=0,
+                         failures=[Failure(kind='infra', stream='*', seed=seed,
+                                           message='the streams did not finish within %d s: some case hangs outside the '
+                                                   'interpreter (the per-case alarm did not fire)' % hard,
+                                           signature={'stream': '*', 'class': 'hard-timeout'}, replay=None)])]
 
 
 # ------------------------------------------------------------------------- known findings
@@ -442,5 +455,8 @@ def main_check(prop_id, modname, argv):
     if n_viol:
         return 1
     if infra and evaluations == 0:
+        return 2
+    if any((f.get('signature') or {}).get('class') in ('case-timeout', 'hard-timeout') for f in infra):
+        # some case never finished: the property is not shown to hold on everything explored
         return 2
     return 0
